@@ -19,7 +19,9 @@ because the data cube is aligned with them), known class -> (class name,
 attribute mapping).  All three back ends store binary64 losslessly, so values
 are compared exactly; where a class defines ``__eq__`` the loaded object must
 in addition compare equal (only demanded if the original equals itself, which
-excludes NaN-carrying fields).
+excludes NaN-carrying fields).  For simulations the public results are
+compared as well: ``misfit``/``gradient`` if they were computed and the text of
+``print_grid_info(verb=0)`` where the grids are given or cheap to build.
 """
 import contextlib
 import io as _io
@@ -46,12 +48,17 @@ RULE = ("seeded random payloads: 1-5 named entries drawn from scalars (int, "
         "several data sets, NaN data, scalar and array noise floor / relative "
         "error in 4 broadcast shapes, explicit standard deviation), Simulation "
         "(7 gridding modes with random gridding/solver/layered/tqdm options; "
-        "plain, computed, computed with misfit and gradient).  Every payload "
+        "plain, computed, computed with misfit and gradient; public results "
+        "misfit/gradient/print_grid_info compared too).  Every payload "
         "goes through save+load in h5, npz and json, through convert (quick: "
         "2 of the 6 format pairs per payload, rotating; thorough: all 6) and, "
         "for surveys and simulations, through to_file/from_file (what = "
-        "plain/results/computed/all).  Inputs known to hit a defect are "
-        "generated only in their own labelled hazard classes.  distinct = "
+        "plain/results/computed/all).  Inputs known to hit a defect (empty "
+        "dict, array with an empty non-last axis, complex with non-finite "
+        "imaginary part, survey without receivers, gridding='input'/'dict'/"
+        "'frequency', simulation with misfit) are generated only in their own "
+        "labelled hazard classes, checked in full, and only the expected "
+        "(class, format, symptom) maps to the mechanism key.  distinct = "
         "(entry class, variant, format) combinations whose loaded object "
         "reached the comparison")
 ASSUMPTIONS = [
@@ -89,9 +96,12 @@ KNOWN_MECH = {
     ('HZ-sim-misfit', 'json', 'save-error'): 'sim-misfit-kept-as-dataarray',
     ('HZ-sim-misfit', '*', 'observable-misfit'):
         'sim-misfit-kept-as-dataarray',
+    ('HZ-sim-frequency-gridding', 'npz', 'observable-grid-info'):
+        'npz-scalars-as-0d-arrays-unhashable-frequency',
 }
 HAZARDS = ['HZ-empty-dict', 'HZ-array-zero-dim', 'HZ-complex-nonfinite-imag',
-           'HZ-survey-no-receivers', 'HZ-sim-mesh-gridding', 'HZ-sim-misfit']
+           'HZ-survey-no-receivers', 'HZ-sim-mesh-gridding', 'HZ-sim-misfit',
+           'HZ-sim-frequency-gridding']
 
 
 # --------------------------------------------------------------------------
@@ -100,7 +110,7 @@ def plan(tier, seed):
     if tier == 'quick':
         nmix, permix, nsim, persim, nhz = 20, 30, 8, 3, 4
     else:
-        nmix, permix, nsim, persim, nhz = 100, 100, 40, 8, 12
+        nmix, permix, nsim, persim, nhz = 100, 80, 32, 8, 12
     out = [{'id': f'mix{k}', 'mode': 'mix', 'k': k, 'n': permix}
            for k in range(nmix)]
     out += [{'id': f'sim{k}', 'mode': 'sim', 'k': 1000+k, 'n': persim}
@@ -469,10 +479,14 @@ def g_float_finite(r):
     return float(r.standard_normal()*10.0**r.integers(-12, 13))
 
 
+_BIG = False        # thorough tier: larger arrays and meshes (set in run_batch)
+
+
 def g_shape(r, maxsize=120):
     nd = int(gen.choice(r, [1, 1, 2, 2, 3, 3, 4]))
+    hi, maxsize = (13, maxsize*12) if _BIG else (7, maxsize)
     while True:
-        s = tuple(int(v) for v in r.integers(1, 7, nd))
+        s = tuple(int(v) for v in r.integers(1, hi, nd))
         if np.prod(s) <= maxsize:
             return s
 
@@ -525,6 +539,8 @@ def sprinkle_nonfinite(r, a):
 
 def g_mesh(r, shape=None, maxn=5):
     import emg3d
+    if _BIG:
+        maxn += 4
     shape = shape or tuple(int(v) for v in r.integers(1, maxn+1, 3))
     gs = gen.grid_spec(r, shape, same_base=bool(r.random() < 0.7))
     origin = gs['origin']
@@ -616,7 +632,7 @@ def g_strength(r):
 BOX0 = ([-1000., -1000., -1500.], [1000., 1000., -100.])
 
 
-def g_tx(r, cls=None, box=BOX0, strength=None):
+def g_tx(r, cls=None, box=BOX0, strength=None, dip_fmts=None):
     import emg3d
     cls = cls or gen.choice(r, TX)
     st = g_strength(r) if strength is None else strength
@@ -633,7 +649,7 @@ def g_tx(r, cls=None, box=BOX0, strength=None):
             pts = np.vstack([pts, pts[:1]])
         pts = gen.choice(r, [pts, pts.tolist()])
         return C(pts, strength=st), f'{cls}/wire/{type(st).__name__}'
-    fmt = gen.choice(r, ['point', 'flat', 'dipole'])
+    fmt = gen.choice(r, dip_fmts or ['point', 'flat', 'dipole'])
     if fmt == 'point':
         length = float(gen.choice(r, [1.0, 10.0, 0.5, 200.0, 3]))
         return (C(g_point5(r, box), strength=st, length=length),
@@ -683,14 +699,15 @@ def g_noise(r, kind, shape, scale):
 
 
 def g_survey(r, box=BOX0, nrec=None, for_sim=False, finite_obs=False,
-             tx_classes=None, real_strength=False):
+             tx_classes=None, real_strength=False, dip_fmts=None):
     import emg3d
     ns = int(r.integers(1, 4))
     nr = int(r.integers(1, 4)) if nrec is None else nrec
     nf = int(r.integers(1, 4))
     classes = [gen.choice(r, tx_classes or TX) for _ in range(ns)]
     txs = [g_tx(r, c, box, strength=(float(gen.choice(r, [1.0, 2.5, -3.0]))
-                                      if real_strength else None))[0]
+                                      if real_strength else None),
+                 dip_fmts=dip_fmts)[0]
            for c in classes]
     rxs = [g_rx(r, None, box)[0] for _ in range(nr)]
     names = gen.choice(r, ['auto', 'auto', 'custom', 'mixedlist'])
@@ -777,7 +794,8 @@ def g_survey(r, box=BOX0, nrec=None, for_sim=False, finite_obs=False,
 
 # Simulations ---------------------------------------------------------------
 SIMBOX = ([-150., -150., -600.], [150., 150., -400.])
-AUTO = ['single', 'frequency', 'source', 'both']
+AUTO = ['single', 'source', 'both', 'frequency']
+AUTO_ORD = AUTO[:3]     # 'frequency' is generated in its own hazard class
 
 
 def g_simgrid(r, n=4):
@@ -874,7 +892,8 @@ def g_solver_opts(r, compute=False):
     return so
 
 
-def g_sim(r, compute=False, gridding=None, misfit=False, tmp=None):
+def g_sim(r, compute=False, gridding=None, misfit=False, tmp=None,
+          cheap_grid=False):
     """A Simulation on an 800 m cube with sources/receivers well inside."""
     import emg3d
     n = int(gen.choice(r, [4, 4, 8])) if compute else int(
@@ -882,13 +901,14 @@ def g_sim(r, compute=False, gridding=None, misfit=False, tmp=None):
     grid = g_simgrid(r, n)
     layered = (not compute and gridding is None and r.random() < 0.2) or (
         compute and gridding is None and r.random() < 0.15)
-    txc, real = None, False
-    if layered:           # layered mode: points and dipoles only; empymod
-        txc = [c for c in TX if 'Wire' not in c]       # wants real strengths
-        if compute:
+    txc, real, dfm = None, False, None
+    if layered:           # layered mode: points and dipoles only; computing
+        txc = [c for c in TX if 'Wire' not in c]     # through empymod wants
+        if compute:       # real strengths and 5/6-element coordinates
             txc, real = ['TxElectricDipole', 'TxElectricPoint'], True
+            dfm = ['point', 'flat']
     sv, svar = g_survey(r, SIMBOX, for_sim=True, finite_obs=misfit,
-                        tx_classes=txc, real_strength=real)
+                        tx_classes=txc, real_strength=real, dip_fmts=dfm)
     case = None
     mu = eps = None
     if layered:
@@ -901,10 +921,10 @@ def g_sim(r, compute=False, gridding=None, misfit=False, tmp=None):
     model, mvar = g_model(r, grid, case=case, mu=mu, eps=eps)
     kw = {}
     gridding = gridding or gen.choice(
-        r, ['same', 'same'] + (AUTO if not compute else ['single']))
+        r, ['same', 'same'] + (AUTO_ORD if not compute else ['single']))
     if compute and gridding in AUTO and r.random() < 0.7:
         gridding = 'same'
-    if gridding in AUTO and compute:
+    if gridding in AUTO and (compute or cheap_grid):
         # a grid has to be constructed: only options that cannot make the
         # automatic gridding fail or explode
         kw['gridding_opts'] = gen.choice(r, [{}, {'center_on_edge': True},
@@ -1122,6 +1142,10 @@ def g_hazard(r, label, tmp):
     if label == 'HZ-sim-misfit':
         s, var = g_sim(r, compute=True, gridding='same', misfit=True)
         return var, s
+    if label == 'HZ-sim-frequency-gridding':
+        s, var = g_sim(r, compute=False, gridding='frequency', tmp=None,
+                       cheap_grid=True)
+        return var, s
     raise ValueError(label)
 
 
@@ -1160,11 +1184,33 @@ def mech_key(label, fmt, symptom, prefix=''):
     return f'C17:{prefix}{symptom}-{lab}-{fmt}'
 
 
-def observables(obj):
+def grid_info(obj):
+    with Quiet():
+        return obj.print_grid_info(verb=0, return_info=True)
+
+
+def _cheap_grid_info(label, obj):
+    """Grid info is compared where no (possibly large) grid has to be built:
+    given grids, and the small default grids of the hazard class."""
+    return type(obj).__name__ == 'Simulation' and (
+        label == 'HZ-sim-frequency-gridding' or
+        getattr(obj, 'gridding', None) in ('same', 'input', 'dict'))
+
+
+def observables(obj, with_grid_info=False):
     """Public results of a Simulation that must survive the round trip."""
     out = {}
     if type(obj).__name__ != 'Simulation':
         return out
+    if with_grid_info:
+        # informational public method; compared only if the original can
+        # produce it (automatic gridding may legitimately find no grid)
+        try:
+            s = grid_info(obj)
+            if isinstance(s, str):
+                out['@grid_info'] = s
+        except Exception:  # noqa
+            pass
     try:
         has_m = obj._misfit is not None
         has_g = obj._gradient is not None
@@ -1243,6 +1289,12 @@ class Checker:
         # public results of simulations
         if ok and obs:
             lobs = observables(loaded)
+            if '@grid_info' in obs:
+                try:
+                    lobs['@grid_info'] = grid_info(loaded)
+                except Exception as e:  # noqa
+                    lobs['@grid_info'] = _Err(f'print_grid_info() raises '
+                                              f'{type(e).__name__}: {e}')
             for k, v in obs.items():
                 rec.event('sim_observables')
                 d2 = []
@@ -1250,8 +1302,8 @@ class Checker:
                      f'{name}{k}', d2)
                 if d2:
                     ok = False
-                    sym = 'observable-misfit' if k == '@misfit' else \
-                        'observable'
+                    sym = {'@misfit': 'observable-misfit', '@grid_info':
+                           'observable-grid-info'}.get(k, 'observable')
                     self.viol(label, fmt, sym, f'{var}: {d2[0][0]}: '
                               f'Simulation.{k[1:]} of the loaded simulation: '
                               f'{d2[0][2]}', prefix,
@@ -1266,8 +1318,11 @@ class Checker:
         rec = self.rec
         payload = {k: v[2] for k, v in items.items()}
         with Quiet():
+            # print_grid_info() constructs and caches the grids: call it
+            # before the canonical form of the original is taken
+            obs = {k: observables(v, _cheap_grid_info(items[k][0], v))
+                   for k, v in payload.items()}
             cforms = {k: canon(v, 'all') for k, v in payload.items()}
-            obs = {k: observables(v) for k, v in payload.items()}
         for k, f in cforms.items():
             if has_error(f):
                 rec.inconclusive('canonical form of a generated object could '
@@ -1313,8 +1368,9 @@ class Checker:
                           f'convert raises {type(e).__name__}: {e}'[:300])
                 continue
             rec.event('convert_calls')
-            self.load_and_compare(fb, f'{a}2{b}', items, cforms, obs,
-                                  prefix='convert-')
+            self.load_and_compare(fb, f'{a}2{b}', items, cforms, {
+                k: {n: v for n, v in o.items() if n != '@grid_info'}
+                for k, o in obs.items()}, prefix='convert-')
             _rm(fb)
         for fn in saved.values():
             _rm(fn)
@@ -1441,8 +1497,10 @@ def describe(items):
 
 # --------------------------------------------------------------------------
 def run_batch(batch):
+    global _BIG
     rec = common.Rec(max_viol=30)
     seed, k, tier = batch['seed'], batch['k'], batch['tier']
+    _BIG = tier == 'thorough'
     tmp = tempfile.mkdtemp(prefix='vf-c17-')
     warnings.simplefilter('ignore')
     try:
@@ -1451,7 +1509,7 @@ def run_batch(batch):
             r = gen.rng(seed, 'C17', k, i)
             try:
                 _one(rec, batch['mode'], r, tmp, case, tier, k, i)
-            except Exception as e:  # noqa - generator / harness problem
+            except Exception:  # noqa - generator / harness problem
                 import traceback
                 rec.inconclusive('harness exception: ' +
                                  traceback.format_exc()[-900:], case)
@@ -1509,7 +1567,8 @@ def _one(rec, mode, r, tmp, case, tier, k, i):
             rec.extra_set('classes', [label])
             if label == 'HZ-sim-misfit':
                 ck2.tofile(label, var, obj, rr, whats=['plain', 'results'])
-            elif label in ('HZ-sim-mesh-gridding', 'HZ-survey-no-receivers'):
+            elif label in ('HZ-sim-mesh-gridding', 'HZ-survey-no-receivers',
+                           'HZ-sim-frequency-gridding'):
                 ck2.tofile(label, var, obj, rr,
                            whats=(['plain', 'all'] if 'sim' in label
                                   else None))
@@ -1518,9 +1577,9 @@ def _one(rec, mode, r, tmp, case, tier, k, i):
 def finalize(merged, tier):
     q = tier == 'quick'
     common.require_events(merged, {
-        'roundtrips': 1500 if q else 25000,
+        'roundtrips': 1500 if q else 20000,
         'entries_compared': 4000 if q else 70000,
-        'convert_roundtrips': 1000 if q else 50000,
+        'convert_roundtrips': 1000 if q else 40000,
         'to_file_roundtrips': 250 if q else 3000,
         'eq_checks': 500 if q else 8000,
         'sim_observables': 1,
